@@ -8,9 +8,10 @@
      ranges, the signing equation for the k the tape defines, sign -> verify, gen -> val, wrap -> unwrap, DH symmetry;
      lines with lvl = 1 are recomputed in full (scalar multiplications over BigNat).
  (2) replay direction: TLC generates cases with predicted outputs (spec/gen/Gen_Bign.tla), the harness executes them.
- Public keys: bign.h states \expect{ERR_BAD_PUBKEY} "the public key is valid" for bignVerify, bignKeyWrap and bignDH, so a
- key whose coordinates are in the field but off the curve must be answered with ERR_BAD_PUBKEY (keys
- `bignKeyWrap:off-curve-pubkey-accepted`, `bignVerify:off-curve-pubkey:not-BAD_PUBKEY`)."""
+ Observations (coordinator's ruling: outside the listed properties, recorded in the evidence, not violations): for a
+ public key whose coordinates are in the field but OFF the curve bignVerify answers ERR_BAD_SIG (rejected; bign.h names
+ ERR_BAD_PUBKEY) and bignKeyWrap answers ERR_OK (alg. 7.2.3 takes the recipient key as valid).  Coordinates >= p must
+ be answered with ERR_BAD_PUBKEY."""
 import os, json, glob, re, time
 import vlib
 
@@ -41,10 +42,6 @@ def key_of(row):
         m = re.search(r"H=([^:]+)", cls)
         if m and m.group(1) in ("q", "q+1", "2^2l-1"):
             return "%s:H>=q:%s" % (fn, "abort" if op == "abort" else "s1-wrong")
-    if fn == "bignKeyWrap" and cls.startswith("Q=y^1"):
-        return "bignKeyWrap:off-curve-pubkey-accepted"
-    if fn == "bignVerify" and (cls.startswith("alt=Q.y^1") or cls.startswith("alt=Q:=(0,0)")):
-        return "bignVerify:off-curve-pubkey:not-BAD_PUBKEY"
     if op == "abort":
         return "%s:abort:%s" % (fn, cls)
     return "%s:l=%s:%s" % (fn, l, cls)
@@ -142,6 +139,13 @@ def run(ctx):
                              ", verify after sign: %s" % row["vrc"] if "vrc" in row else ", KeypairVal: %s" % row["val"] if "val" in row else ""),
                           {"line": row, "how": "re-run ./check C02; the line is judged by spec/trace/Trace_Bign.tla"})
     ev.cov["disagreeing_lines_by_key"] = seen
+    obs = {}
+    for row in lines:
+        if row["op"] == "wrap" and row.get("cls", "").startswith("Q=y^1"):
+            obs["bignKeyWrap: recipient key in the field but off the curve (bign.h: \\expect{ERR_BAD_PUBKEY})"] = row["rc"]
+        if row["op"] == "verify" and row.get("cls", "").startswith(("alt=Q.y^1", "alt=Q:=(0,0)")):
+            obs["bignVerify: public key in the field but off the curve, class %s (bign.h: \\expect{ERR_BAD_PUBKEY})" % row["cls"]] = row["rc"]
+    ev.cov["observations"] = obs
     ev.cov["aborts_by_key"] = aseen
     vlib.log("[C02] %d distinct lines judged, %d disagree, %d aborts (%.0fs)" % (n, len(bad), len(aborts), time.time() - t0))
     # binding self-test: corrupt one output / flip one verdict per operation
